@@ -281,45 +281,67 @@ func cmdCheck(args []string) int {
 	if len(cons) == 0 {
 		violation("no-contracts", map[string]interface{}{"obligation": "no-contracts", "error": "no function under contract is tagged with this property"}, false)
 	}
-	for _, con := range cons {
-		rep := &funcReport{ID: con.ID, Arith: con.Arith}
-		if rep.Arith == "" {
-			rep.Arith = "int"
-		}
-		reports = append(reports, rep)
-		repByFn[con.ID] = rep
-		if con.Kind == "lemma" {
-			c, err := verifyLemma(P, CS, con)
-			if err != nil {
-				rep.Error = err.Error()
-				violation("unverifiable:"+con.ID, map[string]interface{}{"obligation": "vc-generation", "function": con.ID, "error": err.Error()}, false)
+	verifyCons := func(P *Program, CS *Contracts, cons []*Contract) {
+		for _, con := range cons {
+			rep := &funcReport{ID: con.ID, Arith: con.Arith}
+			if rep.Arith == "" {
+				rep.Arith = "int"
+			}
+			reports = append(reports, rep)
+			repByFn[con.ID] = rep
+			if con.Kind == "lemma" {
+				c, err := verifyLemma(P, CS, con)
+				if err != nil {
+					rep.Error = err.Error()
+					violation("unverifiable:"+con.ID, map[string]interface{}{"obligation": "vc-generation", "function": con.ID, "error": err.Error()}, false)
+					continue
+				}
+				ctxs = append(ctxs, c)
 				continue
 			}
-			ctxs = append(ctxs, c)
-			continue
-		}
-		fns := P.targetsOf(con.ID)
-		if len(fns) == 0 {
-			rep.Error = "contract binds to no function"
-			violation("unbound:"+con.ID, map[string]interface{}{"obligation": "unbound-contract", "function": con.ID, "contract": fmt.Sprintf("%s:%d", con.File, con.Line), "error": rep.Error}, false)
-			continue
-		}
-		if con.Flags["trusted"] {
-			rep.Notes = append(rep.Notes, "trusted: contract assumed, body not verified")
-			continue
-		}
-		for _, fn := range fns {
-			c, err := verifyFunction(P, CS, fn, con)
-			if err != nil {
-				rep.Error = err.Error()
-				violation("unverifiable:"+shortID(fn.String()), map[string]interface{}{"obligation": "vc-generation", "function": shortID(fn.String()), "error": err.Error()}, false)
+			fns := P.targetsOf(con.ID)
+			if len(fns) == 0 {
+				rep.Error = "contract binds to no function"
+				violation("unbound:"+con.ID, map[string]interface{}{"obligation": "unbound-contract", "function": con.ID, "contract": fmt.Sprintf("%s:%d", con.File, con.Line), "error": rep.Error}, false)
 				continue
 			}
-			rep.Notes = append(rep.Notes, c.unsupported...)
-			if len(fns) > 1 {
-				rep.Notes = append(rep.Notes, "generic instance verified: "+shortID(fn.String()))
+			if con.Flags["trusted"] {
+				rep.Notes = append(rep.Notes, "trusted: contract assumed, body not verified")
+				continue
 			}
-			ctxs = append(ctxs, c)
+			for _, fn := range fns {
+				c, err := verifyFunction(P, CS, fn, con)
+				if err != nil {
+					rep.Error = err.Error()
+					violation("unverifiable:"+shortID(fn.String()), map[string]interface{}{"obligation": "vc-generation", "function": shortID(fn.String()), "error": err.Error()}, false)
+					continue
+				}
+				rep.Notes = append(rep.Notes, c.unsupported...)
+				if len(fns) > 1 {
+					rep.Notes = append(rep.Notes, "generic instance verified: "+shortID(fn.String()))
+				}
+				ctxs = append(ctxs, c)
+			}
+
+		}
+	}
+	verifyCons(P, CS, cons)
+	var P2 *Program
+	var CS2 *Contracts
+	if *prop == "C09" {
+		// the exp module (slog handler) is a separate Go module: second pass over its C09 contracts
+		var err2 error
+		P2, CS2, err2 = loadAll(*repo, true)
+		if err2 != nil {
+			violation("load-exp", map[string]interface{}{"obligation": "load", "error": err2.Error()}, false)
+		} else {
+			var cons2 []*Contract
+			for _, con := range CS2.funcsForProp(*prop) {
+				if strings.Contains(con.File, "/exp/") {
+					cons2 = append(cons2, con)
+				}
+			}
+			verifyCons(P2, CS2, cons2)
 		}
 	}
 	// background theories used by some verification condition: their proved axioms are obligations of this check
@@ -347,8 +369,17 @@ func cmdCheck(args []string) int {
 			ctxs = append(ctxs, c)
 		}
 	}
+	covSeen := map[string]bool{}
 	for _, msg := range immutableCoverage(P, CS, *prop) {
+		covSeen[msg] = true
 		violation("lock.coverage:"+truncate(msg, 80), map[string]interface{}{"obligation": "lock.coverage", "error": msg}, false)
+	}
+	if P2 != nil {
+		for _, msg := range immutableCoverage(P2, CS2, *prop) {
+			if !covSeen[msg] && strings.Contains(msg, "exp/") {
+				violation("lock.coverage:"+truncate(msg, 80), map[string]interface{}{"obligation": "lock.coverage", "error": msg}, false)
+			}
+		}
 	}
 	// contract-level axioms with a proof method: obligations of this check when some verification condition used them
 	{
@@ -504,7 +535,7 @@ func cmdCheck(args []string) int {
 		}
 	}
 	writeEvidence(root, *prop, *tier, seed, reports, samples, byBackend, time.Since(t0).Seconds(), violations, assumedL, axiomL, total, discharged)
-	fmt.Printf("property %s: %d functions under contract, %d obligations, %d discharged, %d vacuity checks, %d known findings, %d violations, %.1fs\n", *prop, len(cons), total, discharged, vac, len(knownLines), violations, time.Since(t0).Seconds())
+	fmt.Printf("property %s: %d functions under contract, %d obligations, %d discharged, %d vacuity checks, %d known findings, %d violations, %.1fs\n", *prop, len(reports), total, discharged, vac, len(knownLines), violations, time.Since(t0).Seconds())
 	if violations > 0 {
 		return 1
 	}
